@@ -38,6 +38,30 @@ CM_H = 'src/tbb/concurrent_monitor.h'
 CQ_H = 'include/oneapi/tbb/concurrent_queue.h'
 
 MUTANTS = [
+    dict(name='c16-seed2-destroy-takes-largest-control', prop='C16', clause='D5', edits=[('src/tbb/global_control.cpp',
+        "            new_active = (*c->my_list.begin())->my_value;", "            new_active = (*c->my_list.rbegin())->my_value;")]),
+    dict(name='c15-seed2-duplicate-key-accepted', prop='C15', clause='D2', edits=[('include/oneapi/tbb/detail/_flow_graph_join_impl.h',
+        "                        current->status.store( was_inserted ? SUCCEEDED : FAILED, std::memory_order_release);",
+        "                        tbb::detail::suppress_unused_warning(was_inserted);\n                        current->status.store( SUCCEEDED, std::memory_order_release);")]),
+    dict(name='c15-rejected-duplicate-overwrites', prop='C15', clause='D2', edits=[('include/oneapi/tbb/detail/_flow_graph_tagged_buffer_impl.h',
+        "            // An element with this key is already stored: the insertion is rejected and the stored element is kept\n            return false;",
+        "            p->destroy_element();\n            p->create_element(v, std::forward<Args>(args)...);\n            return false;")]),
+    dict(name='c13-seed2-shared-push-status', prop='C13', clause='D3', edits=[(CPQ_H, """                    my_size.store(my_size.load(std::memory_order_relaxed) + 1, std::memory_order_relaxed);
+                    tmp->status.store(uintptr_t(SUCCEEDED), std::memory_order_release);
+                }
+#if TBB_USE_EXCEPTIONS
+                catch(...) {
+                    tmp->status.store(uintptr_t(FAILED), std::memory_order_release);
+                }
+#endif""", """                    my_size.store(my_size.load(std::memory_order_relaxed) + 1, std::memory_order_relaxed);
+                }
+#if TBB_USE_EXCEPTIONS
+                catch(...) {
+                    push_status = FAILED;
+                }
+#endif
+                tmp->status.store(uintptr_t(push_status), std::memory_order_release);"""),
+        (CPQ_H, "        cpq_operation* tmp, *pop_list = nullptr;\n", "        cpq_operation* tmp, *pop_list = nullptr;\n        operation_status push_status = SUCCEEDED;\n")]),
     dict(name='c09-seed2-wakeup-predicate-equality', prop='C09', clause='D5', edits=[('src/tbb/concurrent_bounded_queue.cpp',
         "    bool operator() ( std::uintptr_t ticket ) const { return static_cast<std::size_t>(ticket) <= my_ticket; }",
         "    bool operator() ( std::uintptr_t ticket ) const { return static_cast<std::size_t>(ticket) == my_ticket; }")]),
@@ -941,6 +965,10 @@ MUTANTS = [
 ]
 
 BENIGN = [
+    # known findings must stay matched when unrelated lines move
+    dict(name='c16-b-line-shift-known-finding', prop='C16', edits=[(AR_CPP, "#include \"arena.h\"\n", "// a comment\n// another comment\n#include \"arena.h\"\n")]),
+    dict(name='c13-b-line-shift-known-finding', prop='C13', edits=[(CPQ_H, "namespace tbb {\nnamespace detail {\nnamespace d1 {\n", "// a comment\n// another comment\nnamespace tbb {\nnamespace detail {\nnamespace d1 {\n")]),
+    dict(name='c04-b-line-shift-known-finding', prop='C04', edits=[('src/tbb/thread_data.h', "class context_list : public intrusive_list<d1::intrusive_list_node> {", "// a comment\n// another comment\nclass context_list : public intrusive_list<d1::intrusive_list_node> {")]),
     dict(name='c05-b-ratio-operands-commuted', prop='C05', edits=[('include/oneapi/tbb/blocked_range2d.h',
         "        if ( my_rows.size()*double(my_cols.grainsize()) < my_cols.size()*double(my_rows.grainsize()) ) {",
         "        if ( double(my_cols.grainsize())*my_rows.size() < double(my_rows.grainsize())*my_cols.size() ) {")]),
